@@ -130,6 +130,12 @@ func (s *Stats) Flush() {
 	if path == "" {
 		return
 	}
+	for _, a := range os.Args {
+		if len(a) >= 16 && a[:16] == "-test.fuzzworker" {
+			// native fuzzing runs workers as separate processes: one file per worker
+			path = fmt.Sprintf("%s.w%d", path, os.Getpid())
+		}
+	}
 	s.mu.Lock()
 	nt := make([]uint64, 0, len(s.nt))
 	for h := range s.nt {
